@@ -53,11 +53,14 @@ StructCases(b) ==
   \/ kind' = "pad" /\ pos' \in {v \in {2, 40, 295 - sz, 296 - sz, 297 - sz, 298 - sz, 299 - sz} : v >= 2} /\ sym' = 0
   \/ kind' = "rawval" /\ pos' \in {0, 5, 127, 128} /\ sym' = 0
 
+(* byte edits everywhere in the small bases; in the size-limit bases (padding) only in the  *)
+(* headers at the front and at the very end                                               *)
+EditPos(b) == IF Len(Raw(b)) > 200 THEN (1..8) \cup {Len(Raw(b))} ELSE 1..Len(Raw(b))
 Cases(b) ==
   \/ kind' = "none" /\ pos' = 0 /\ sym' = 0
-  \/ kind' = "sub" /\ pos' \in 1..Len(Raw(b)) /\ sym' \in EditSyms \ {Raw(b)[pos']}
-  \/ kind' = "ins" /\ pos' \in 1..(Len(Raw(b)) + 1) /\ sym' \in EditSyms
-  \/ kind' = "del" /\ pos' \in 1..Len(Raw(b)) /\ sym' = 0
+  \/ kind' = "sub" /\ pos' \in EditPos(b) /\ sym' \in EditSyms \ {Raw(b)[pos']}
+  \/ kind' = "ins" /\ pos' \in EditPos(b) \cup {Len(Raw(b)) + 1} /\ sym' \in EditSyms
+  \/ kind' = "del" /\ pos' \in EditPos(b) /\ sym' = 0
   \/ Decodes(b) /\ StructCases(b)
 
 Init == base = 0 /\ kind = "start" /\ pos = 0 /\ sym = 0
